@@ -16,7 +16,7 @@ from .common import struct_ob, formula_ob, guard, last_return, U
 from ..report import AnalysisError
 
 REL = "inference/pdf/hdi.py"
-FLOORS = {"ownership": 1, "window-offset": 3, "axis-discipline": 4, "endpoints-are-samples": 1}
+FLOORS = {"ownership": 1, "window-offset": 3, "axis-discipline": 5, "endpoints-are-samples": 1}
 
 
 def run(prog, tier):
@@ -115,6 +115,12 @@ def run(prog, tier):
         obs.append(struct_ob("axis-discipline", construct + f"[{name}@{c.lineno}]", ok,
                              f"`{U(c)}` must act along axis 0 (the sample axis) so that columns are independent",
                              REL, c.lineno))
+    # the sort is unconditional (a top-level statement of the function)
+    sort_stmts = [st for st in fn.body if isinstance(st, ast.Expr) and isinstance(st.value, ast.Call) and U(st.value.func) == "s.sort"]
+    n_sorts = len([1 for n_, c, ok in checks if n_ == "sort"])
+    obs.append(struct_ob("axis-discipline", construct + "[sort-unconditional]", len(sort_stmts) == 1 and n_sorts == 1,
+                         "the copy must be sorted unconditionally before the windows are formed (a sortedness test on the raw values "
+                         "is not reliable for every dtype, e.g. unsigned integers wrap in differences)", REL, fn.lineno))
     # the sort precedes the window computation
     sort_line = min([c.lineno for n_, c, ok in checks if n_ == "sort"] or [10 ** 9])
     if sort_line > one("widths").lineno:
